@@ -402,6 +402,29 @@ fn gen_closed(rng: &mut Rng) -> Spec {
     for s in spec.sources.iter_mut() {
         s.poll = Poll::Fixed(poll * rng.f64_range(0.9, 1.1));
     }
+    // leap flags (0 none, 1 +1 s, 2 -1 s, 3 unknown): the phase boundary and the thresholds must not depend on
+    // whether the leap vote of the used sources is decided (all unknown, exact ties, changing over time)
+    match rng.below(5) {
+        0 => {
+            for s in spec.sources.iter_mut() {
+                s.leap0 = 3;
+            }
+        }
+        1 => {
+            for (i, s) in spec.sources.iter_mut().enumerate() {
+                s.leap0 = if i % 2 == 0 { 0 } else { *rng.pick(&[1u8, 2]) };
+            }
+        }
+        2 => {
+            for s in spec.sources.iter_mut() {
+                s.leap0 = rng.below(4) as u8;
+                if rng.bool() {
+                    s.leaps.push((rng.f64_range(20.0, 300.0), rng.below(4) as u8));
+                }
+            }
+        }
+        _ => {}
+    }
     spec.hw_drift = *rng.pick(&[0.0, 1e-6, -2e-5, 1e-4]);
     // later events: common jumps of all remote clocks, or the local clock being set by someone else
     let k = rng.usize(0, 6);
